@@ -9,6 +9,7 @@ GEOS = {
     'g3': (40000, [100000]),                  # 3 pieces: 3 blocks (16384, 16384, 7232), last piece 20000 (2 blocks)
     'g12': (1000, [4000, 0, 7500]),           # 12 pieces (both sides of the end-game limit 10), zero-length file
     'g2': (32868, [50000]),                   # 2 pieces, 3 + 2 blocks
+    'm21': (20000, [25000]),                  # 2 pieces with 2 and 1 blocks: the geometry of the model-generated scripts
 }
 
 
@@ -438,4 +439,50 @@ def tracker(rng, nfail=None):
     sc = base(gname, peers, steps, outcomes, pat=rng.randrange(251))
     sc['family'] = 'tracker'
     sc['nfail'] = nfail
+    return sc
+
+
+
+def from_model(script, idx=0):
+    """Specification -> implementation: a behaviour of MC_SwarmGen.tla (the environment's moves recorded in the
+    history variable `script`) turned into a simnet scenario. Peers a, b -> 0, 1; pieces and blocks 1-based -> wire values."""
+    gname = 'm21'
+    pl, files, n, plens = geo(gname)
+    names = {}
+    peers = []
+    steps = []
+    for mv in script:
+        k = mv[1]
+        if k not in names:
+            names[k] = len(peers)
+            peers.append(peer(len(peers), set(range(n)), serve='none'))
+        j = names[k]
+        if mv[0] == 'conn':
+            steps.append({'op': 'connect', 'peer': j})
+            continue
+        kind = mv[2]
+        if kind == 'Bad':
+            steps.append(send(j, {'k': 'Raw', 'hex': 'fffefdfcfbfa'}))
+        elif kind == 'Early':
+            steps.append(send(j, fr('Interested')))
+        elif kind == 'Handshake':
+            steps.append(send(j, hs()))
+        elif kind == 'Have':
+            steps.append(send(j, fr('Have', mv[3] - 1)))
+        elif kind == 'Bitfield':
+            steps.append(send(j, bf({p - 1 for p in mv[3]})))
+        elif kind == 'Request':
+            p, ok = mv[3] - 1, mv[4]
+            steps.append(send(j, fr('Request', p, 0, 10 if ok else 16385)))
+        elif kind == 'Piece':
+            p, b, good = mv[3] - 1, mv[4], mv[5]
+            begin, ln = blocks(plens[p])[b - 1]
+            steps.append(send(j, fr('Piece', p, begin, ln, bad=not good)))
+        elif kind == 'Cancel':
+            steps.append(send(j, fr('Cancel', 0, 0, 1)))
+        else:
+            steps.append(send(j, fr(kind)))
+    steps.append({'op': 'advance', 'ms': 200})
+    sc = base(gname, peers, steps, [{'k': 'peers', 'peers': []}], pat=(idx * 37) % 251)
+    sc['family'] = 'model'
     return sc
